@@ -127,6 +127,14 @@ func (s *runState) pickName() string { return tape.Pick(s.t, namePool) }
 
 // pickPath returns a relative path; mostly existing things.
 func (s *runState) pickPath() string {
+	p := s.pickPath0()
+	if s.t.Chance(1, 8) && !strings.HasSuffix(p, "/") && p != "." {
+		p += "/" // a trailing slash demands a directory, whatever the base descriptor is
+	}
+	return p
+}
+
+func (s *runState) pickPath0() string {
 	t := s.t
 	switch t.Weighted(6, 3, 2, 1, 1, 1) {
 	case 0:
@@ -1058,7 +1066,7 @@ func (s *runState) opRenumber() {
 		to = from // onto itself
 	case 2:
 		to = int32(4 + t.Choose(12)) // maybe free
-		if t.Chance(1, 6) {
+		if t.Chance(1, 3) {
 			// descriptor-table word boundaries (the table keeps a bitmask per 64 entries)
 			to = tape.Pick(t, []int32{62, 63, 64, 65, 127, 128, 129})
 		}
@@ -1135,7 +1143,7 @@ func (s *runState) opFilestatGet() {
 		// path_filestat_get
 		p := s.pickPath()
 		dirfd := int32(3)
-		if t.Chance(1, 6) {
+		if t.Chance(1, 3) {
 			dirfd = s.pickFd(true)
 		}
 		what := fmt.Sprintf("path_filestat_get(dirfd=%d,%q)", dirfd, p)
